@@ -1478,9 +1478,16 @@ def run_sys(case):
     c0, c, q = case['c0'], case['c'], case['q']
     wrong = []
 
+    subs = []
+
     def gen(g):
         if not same_system(g, grid):
             wrong.append(type(g).__name__)
+        try:
+            subs.append(({'PolarGrid': 'polar', 'CartesianGrid': 'cartesian', 'Grid': 'base'}.get(type(g).__name__, type(g).__name__),
+                         [[float(v) for v in a] for a in g.separated_coords]))
+        except Exception:  # noqa
+            subs.append((type(g).__name__, None))
         if cls == 'polar' and case['access'] == 'as_polar':
             pg = g.as_('polar')
             co = [np.asarray(pg.coords[0]), np.asarray(pg.coords[1])]
@@ -1520,6 +1527,10 @@ def run_sys(case):
         if not bad:
             lines.append('C18 ss %s %s %s %s %s %s' % (case['stat'], rat(c0), rat_list(c), rat_list(q), rat_lists(axes), '[' + ','.join(str(n) for n in ns) + ']'))
             cmps.append(('ss', got, {}))
+            # the sub-grids the generator was handed, against the model's `subGrids` (class and coordinates of every one)
+            lines.append('C18 subgrids %s %s %s' % (cls, rat_lists(axes), '[' + ','.join(str(n) for n in ns) + ']'))
+            cmps.append(('subgrids', subs, {}))
+            info['subgrids'] = len(subs)
         info['entries'].append('evaluate_supersampled')
     except Exception as e:  # noqa
         bad.append(('supersampled-raises', 'evaluate_supersampled on a %s (generator reading the coordinates through %s) raised %s: %s' % (what, case['access'], type(e).__name__, str(e)[:100])))
@@ -1813,6 +1824,25 @@ def compare_model(ctx, out, case, cmps, base, had_bad):
                 ctx.disagree('C18 near-uns', {'case': case, 'model': resp, 'impl': got})
                 return
             ctx.count('near-uns:ties', sum(1 for grp in groups if len(set(grp)) > 1))
+            continue
+        if stream == 'subgrids':
+            ms = [(t.partition(':')[0], [parse_vals(a) for a in t.partition(':')[2].split(';')]) for t in body.split('|')]
+            good = len(ms) == len(got) and all(ga is not None for _, ga in got)
+            if good:
+                # the order in which the dithers are visited is not part of the property: compare as sets
+                ms = sorted(ms, key=lambda t: [float(a[0]) for a in t[1]])
+                got = sorted(got, key=lambda t: [a[0] for a in t[1]])
+            for (msys, maxes), (gsys, gaxes) in zip(ms, got):
+                if not good:
+                    break
+                good = msys == gsys and gaxes is not None and len(maxes) == len(gaxes)
+                for ma, ga in zip(maxes, gaxes if good else []):
+                    e = cmp_vals(ga, ma)
+                    good = good and e is not None and e <= TOL
+            ctx.count('sys:sub-grids-compared', len(got))
+            if not good:
+                ctx.disagree('C18 subgrids', {'case': case, 'model': resp[:400], 'impl': got})
+                return
             continue
         if stream == 'supergrid':
             axes_m = [parse_vals(t) for t in body.split(';')]
